@@ -167,7 +167,15 @@ def plan_C01(seed, run, engine):
         k2["max_iter"] = int(choice(rng, [20, 100]))
         ops.append(dict(op="solve", start="buffers", knobs=k2,
                         faults=G.gen_faults(rng, solver, fault_rate), storage=prob["storage"]))
-    return _mk("C01", seed, run, engine, prob, ops, rng)
+    plan = _mk("C01", seed, run, engine, prob, ops, rng)
+    if str(plan["storage"]).startswith("csc") and rng.random() < 0.2:
+        # a CSC matrix in non-canonical format (duplicate entries): the certificate of a run
+        # that claims convergence does not depend on how the matrix was stored
+        for op in plan["ops"]:
+            if str(op.get("storage", "")).startswith("csc"):
+                op["storage"] = "csc_dup"
+        plan["storage"] = "csc_dup"
+    return plan
 
 
 # ---------------------------------------------------------------------- crash-point grids
